@@ -84,7 +84,7 @@ def run(module: str,
             f.write(cfg_text)
     else:
         cfg_path = os.path.join(spec_dir, cfg or (module + '.cfg'))
-    cmd = ['java', '-XX:+UseParallelGC', '-Xmx' + heap, '-DTLA-Library=' + SPEC_DIR, '-cp', JAR, 'tlc2.TLC',
+    cmd = ['java', '-XX:+UseParallelGC', '-Xss64m', '-Xmx' + heap, '-DTLA-Library=' + SPEC_DIR, '-cp', JAR, 'tlc2.TLC',
            '-workers', str(workers), '-metadir', os.path.join(work, 'meta'), '-noGenerateSpecTE',
            '-config', cfg_path]
     if not deadlock:
